@@ -6,6 +6,7 @@ package world
 
 import (
 	"bytes"
+	"context"
 	"fmt"
 	"io"
 	"io/ioutil"
@@ -494,6 +495,12 @@ func (w *World) DoBody(proc, disp, method, host, uri string, hdr http.Header, cs
 		req.Header[k] = v
 	}
 	req.Header.Set("X-Verif-Rid", strconv.Itoa(ri.Rid))
+	if req.Header.Get("X-Verif-Client-Gone") != "" {
+		// a client that has gone away already: the request's context is cancelled
+		ctx, cancel := context.WithCancel(req.Context())
+		cancel()
+		req = req.WithContext(ctx)
+	}
 	rec := httptest.NewRecorder()
 	res := &Result{Rid: ri.Rid}
 	func() {
